@@ -203,3 +203,22 @@ func VerifC08Long() {
 	verifAssert("C08.long.nothing-lost", total >= n)
 	verifCover("C08.long.end")
 }
+
+// an OBU whose size field is an over-long LEB128 (9 to 11 bytes, continuation
+// bits forced, the value bits of the first, the last-but-one and the last byte symbolic): the payloader neither panics nor exceeds the MTU
+func VerifC08AV1LongLeb128() {
+	k := verifCase("continuation-bytes", 8, 10)
+	in := []byte{verifU8("obu.header")&0x7D | 0x02} // forbidden bit clear, has_size_field set
+	for i := 0; i < k; i++ {
+		b := uint8(0x80)
+		if i == 0 || i == k-1 {
+			b |= verifU8("leb.byte") // value bits of the first and the last continuation byte
+		}
+		in = append(in, b)
+	}
+	in = append(in, verifU8("leb.last")&0x7F)
+	in = append(in, verifBytes("tail", verifCase("tail", 0, 2))...)
+	mtu := uint16(verifPick("mtu", []int{2, 5, 64}))
+	_ = verifC08Call("C08.av1leb", (&AV1Payloader{}).Payload, mtu, in, false)
+	verifCover("C08.av1leb.end")
+}
